@@ -30,7 +30,7 @@ def is_emergency(msg: str) -> bool:
 
     emergency_state = common.bin2int(mb[8:11])
 
-    if subtype == 1 and emergency_state == 1:
+    if subtype == 1 and emergency_state != 0:
         return True
     else:
         return False
